@@ -22,7 +22,6 @@ from rattr.models.util.hash import (
     hash_string,
 )
 from rattr.models.util.serialise import deserialise
-from rattr.module_locator.util import is_in_import_blacklist
 from rattr.plugins import plugins
 
 if TYPE_CHECKING:
@@ -93,7 +92,6 @@ def make_cacheable_import_info(
             for symbol in context.symbol_table.symbols
             if isinstance(symbol, Import)
             if symbol.module_name is not None
-            if not is_in_import_blacklist(symbol.module_name)
             if symbol.module_spec is not None
             if symbol.module_spec.origin is not None
             if symbol.module_spec.origin != PYTHON_BUILTINS_LOCATION
